@@ -264,6 +264,8 @@ class EngineRun:
         self.tick_no = -1
         self.t = EPOCH
         self.hw = make_hw()
+        self.engine = None
+        self._vol_blocks, self._vol_run, self._vol_last, self._was_started = [], 0.0, 0.0, False
         self.uod = build_uod(self._uod_log, self.hw)
         self.uod.hwl.connect()
         self.engine = Engine(self.uod, EngineTiming(WallClock(), NullTimer(), interval, 1.0))
@@ -342,6 +344,13 @@ class EngineRun:
             return True
         blk, bt, stime, base = self._clock()
         factor = {"s": 1, "min": 60, "h": 3600}.get(base)
+        if base == "L":
+            # volume base: the clock is the volume accumulated since the innermost active block started (since the run started
+            # outside blocks). Computed here from the totalizer readings alone, not from the Block Volume / Accumulated Volume
+            # tags: the accumulators are updated after the interpreter in every tick, so what they show now is the totalizer as of
+            # the previous tick end minus the totalizer when the block (the run) started.
+            v0 = self._vol_blocks[-1][1] if (blk not in (None, "") and self._vol_blocks) else self._vol_run
+            return Fraction(str(self._vol_last)) - Fraction(str(v0)) >= Fraction(str(thr))
         if factor is None:
             return True
         clock = bt if blk not in (None, "") else stime
@@ -361,6 +370,11 @@ class EngineRun:
 
     def _node_sink(self, node, flag, old, new):
         extra = {}
+        if type(node).__name__ == "BlockNode" and self.engine is not None:
+            if flag.lstrip("_") == "lock_acquired" and new and not old:
+                self._vol_blocks.append((str(node.id), float(self.uod.tags["Vol"].get_value())))
+            elif flag.lstrip("_") == "block_ended" and new and not old:
+                self._vol_blocks = [b for b in self._vol_blocks if b[0] != str(node.id)]
         if flag == "started" and new:
             extra["reached"] = bool(self._reached(node))
         if flag == "activated" and new:
@@ -587,6 +601,11 @@ class EngineRun:
             exc = type(ex).__name__ + ": " + str(ex)[:120]
             self.raised = exc
         self._drain_writes(phase="tick")
+        vol_now = float(self.uod.tags["Vol"].get_value())
+        if self.engine._runstate_started and not self._was_started:      # a run began in this tick: its accumulators start here
+            self._vol_run, self._vol_blocks = vol_now, []
+        self._was_started = bool(self.engine._runstate_started)
+        self._vol_last = vol_now
         self._ev("tickEnd", exc=exc, **self.snapshot())
         if self.tagtrace:
             self._log_tag_changes()
